@@ -53,3 +53,14 @@ func (fl *fieldList) get(name string) (f *FieldDef) {
 	}
 	return
 }
+
+func (fl *fieldList) dup() (d fieldList) {
+	d.list = fl.list
+	if fl.dict != nil {
+		d.dict = make(map[string]*FieldDef, len(fl.dict))
+		for k, v := range fl.dict {
+			d.dict[k] = v
+		}
+	}
+	return
+}
